@@ -26,19 +26,40 @@ def cases(tier, seed):
     nets = gen.corpus() + [gen.draw(rng, cl, nmax) for _ in range(count)]
     nets += [gen.model_net(f) for f in gen.models_up_to(9 if tier == "quick" else 12)]
     out = []
+    # directed regression case for the open known finding (deterministic witness)
+    from .. import expr as X
+
+    wn, we = X.parse_bnet(WITNESS_BNET)
+    out.append({"net": gen.net(wn, we, "witness"), "cls": "witness", "stop": ["spaces", [{}, {"D": 1, "L": 1}]], "skip_p": 0.0, "orders": 2, "rs": 12345})
+    for n in gen.corpus():
+        if len(n["names"]) >= 6:
+            for k in range(6):
+                out.append({"net": n, "cls": n["cls"], "stop": ["succ1", k], "skip_p": 0.0, "orders": 6, "rs": rng.randrange(1 << 30)})
     for n in nets:
         for rep in range(1 if tier == "quick" else 2):
             out.append(
                 {
                     "net": n,
                     "cls": n["cls"],
-                    "stop": [rng.choice(["bfs", "dfs", "min", "min_skip", "block", "none", "succ"]), rng.randint(1, 7)],
+                    "stop": [rng.choice(["bfs", "dfs", "min", "min_skip", "block", "none", "succ", "succ1", "succ1"]), rng.randint(1, 7)],
                     "skip_p": rng.choice([0.0, 0.3, 0.6, 1.0]),
                     "orders": 6,
                     "rs": rng.randrange(1 << 30),
                 }
             )
     return out
+
+
+WITNESS_BNET = """D, L
+L, D
+z, f
+f, z
+F3t, (L7 & D)
+L7, (F3t & D)
+lz4, (((!lz4 & !Xr) | Dzar) & ((D & z) & F3t))
+Xr, (((!lz4 & !Xr) | Dzar) & ((D & z) & F3t))
+Dzar, ((lz4 & Xr) & ((D & z) & F3t))
+"""
 
 
 def gate(agg):
@@ -59,6 +80,16 @@ def build(bb, net, case, rr, W):
         W(lambda: sd.expand_minimal_spaces(size_limit=L, skip_ignored=True))
     elif strat == "block":
         W(lambda: sd.expand_block(size_limit=L))
+    elif strat == "spaces":
+        for sp in L:
+            i = sd.find_node(sp)
+            if i is not None:
+                W(lambda i=i: sd.node_successors(i, compute=True))
+    elif strat == "succ1":
+        # root plus exactly one of its children (the L-th, cyclically)
+        ch = sorted(W(lambda: sd.node_successors(0, compute=True)))
+        if ch:
+            W(lambda: sd.node_successors(ch[L % len(ch)], compute=True))
     elif strat == "succ":
         W(lambda: sd.node_successors(0, compute=True))
         for i in list(sd.stub_ids()):
